@@ -73,7 +73,7 @@ Definition spec_packsize (compress : bool) (size : nat) (m : msg) (out : list N)
                          Nat.eqb (length (m_ns m')) (length (m_ns m)) &&
                          Nat.eqb (length (m_ar m')) (length (m_ar m))) in
     (* the size bound (meaningful when the OPT record itself leaves room) *)
-    ((eff <=? optlen) || (length out <=? eff)) &&
+    ((eff <? optlen + 12) || (length out <=? eff)) &&
     (* TC iff something was omitted (or TC was already set) *)
     header_eqb (m_hdr m') (set_tc (m_hdr m) (h_tc (m_hdr m) || omitted)) &&
     (* kept elements are unmodified and in their original relative order *)
